@@ -11,6 +11,7 @@
 (*   Cmd(sig, i, who, r)   a pre/post command ran on rank r (-1: launch    *)
 (*                         script); who = -1 for a plain string entry,     *)
 (*                         else the rank the dict entry names              *)
+(*   Ctrl(r, want, seen)   $RP_CTRL was called on rank r (startup report) *)
 (*   Exec(r, argv, env, items, cvd)   the executable ran on rank r and saw *)
 (*                         this argv / environment / cwd                   *)
 (*   RankExit(r, code)     exit code of rank r's exec script (MPI stand-in)*)
@@ -31,9 +32,9 @@ EXTENDS ScriptOps, TLC, Json, IOUtils
 Batch  == JsonDeserialize(IOEnv.TRACE_FILE)
 Traces == Batch.traces
 
-VARIABLES tid, l, pos, seen, prefailed, errs, fin
+VARIABLES tid, l, pos, seen, prefailed, reported, errs, fin
 
-vars == <<tid, l, pos, seen, prefailed, errs, fin>>
+vars == <<tid, l, pos, seen, prefailed, reported, errs, fin>>
 
 T  == Traces[tid]
 Ev == T.events
@@ -45,8 +46,8 @@ C == [ranks |-> T.cfg.ranks, lm |-> T.cfg.lm,
       post  |-> [i \in 1 .. Len(T.cfg.post) |-> ToEntry(T.cfg.post[i])],
       prel  |-> T.cfg.prel, postl |-> T.cfg.postl, sync |-> T.cfg.sync,
       argv  |-> T.cfg.argv, env |-> T.cfg.env, envk |-> T.cfg.envk, nenv |-> T.cfg.nenv,
-      omp   |-> T.cfg.omp,
-      gpr   |-> T.cfg.gpr, out |-> T.cfg.out, err |-> T.cfg.err]
+      omp   |-> T.cfg.omp, gq |-> T.cfg.gq, gtype |-> T.cfg.gtype, sto |-> T.cfg.sto,
+      svc   |-> T.cfg.svc, cfgpre |-> T.cfg.cfgpre, prof |-> T.cfg.prof, out |-> T.cfg.out, err |-> T.cfg.err]
 FF  == {Exe(f.sig, f.i, f.r) : f \in SeqSet(T.F)}
 X   == LaunchRun(C, FF, T.xrc)                  \* the spec's observable for this run
 All == Ranks(C) \cup {L}
@@ -74,7 +75,7 @@ Init ==
   /\ tid \in 1 .. Len(Traces)
   /\ l = 1
   /\ pos = [r \in Ranks([ranks |-> Traces[tid].cfg.ranks]) \cup {L} |-> 1]
-  /\ seen = {} /\ prefailed = {}
+  /\ seen = {} /\ prefailed = {} /\ reported = {}
   /\ errs = E(Traces[tid].gen_error = "none", "C10.ScriptNotGenerated")
   /\ fin = FALSE
 
@@ -110,7 +111,7 @@ Step ==
      /\ CASE e.ev = "Cmd" ->
                IF e.r \notin All
                THEN /\ errs' = errs \cup {"C10.RankUnknown"}
-                    /\ UNCHANGED <<pos, seen, prefailed>>
+                    /\ UNCHANGED <<pos, seen, prefailed, reported>>
                ELSE
                LET r == e.r
                    c == [sig |-> e.sig, i |-> e.i, who |-> e.who] IN
@@ -123,11 +124,11 @@ Step ==
                     \cup E(~(e.sig = "post_exec" /\ r \notin seen), "C10.PostBeforeExec")
                     \cup E(r \notin prefailed, "C10.RanAfterFailedPre")
                     \cup OrderErrs(r, c, "C10.CmdUnexpected")
-               /\ UNCHANGED seen
+               /\ UNCHANGED <<seen, reported>>
           [] e.ev = "Exec" ->
                IF e.r \notin Ranks(C)
                THEN /\ errs' = errs \cup {"C10.RankUnknown"}
-                    /\ UNCHANGED <<pos, seen, prefailed>>
+                    /\ UNCHANGED <<pos, seen, prefailed, reported>>
                ELSE
                LET r == e.r IN
                /\ pos' = Advance(r, ExecMark)
@@ -140,10 +141,24 @@ Step ==
                     \cup E(~C.sync \/ \A q \in Ranks(C) \ {r} : pos[q] > NPre(C, q, FF),
                            "C10.SyncBarrier")
                     \cup ArgErrs(e.argv) \cup EnvErrs(e.env) \cup ItemErrs(e.items)
-                    \cup (IF C.gpr > 0
-                          THEN E(e.cvd_set /\ e.cvd = GpusOf(C, r), "C10.GpuAssignment")
-                          ELSE {})
-               /\ UNCHANGED prefailed
+                    \* the GPU variable: exactly the ids of this rank's slot (the rig
+                    \* numbers the node's GPUs from T.gbase), not set by RP otherwise
+                    \cup (LET g == GpuEnv(C, r) IN
+                          IF g.set
+                          THEN E(e.cvd_set, "C10.GpuNotExported")
+                               \cup E(~e.cvd_set \/ e.cvd = [j \in 1 .. Len(g.ids) |-> g.ids[j] + T.gbase],
+                                      "C10.GpuAssignment")
+                          ELSE E(~e.cvd_set, "C10.GpuUnexpected"))
+               /\ UNCHANGED <<prefailed, reported>>
+          [] e.ev = "Ctrl" ->
+               /\ reported' = reported \cup {e.r}
+               /\ errs' = errs
+                    \cup E(C.sto, "C10.StartupUnexpected")
+                    \cup E(e.r = 0, "C10.StartupNotRankZero")
+                    \cup E(e.r \notin reported, "C10.StartupTwice")
+                    \cup E(e.r \notin seen, "C10.StartupAfterExec")
+                    \cup E(e.seen = e.want, "C10.StartupArgs")
+               /\ UNCHANGED <<pos, seen, prefailed>>
           [] e.ev = "RankExit" ->
                /\ errs' = errs \cup
                     (IF e.r \notin Ranks(C) THEN {"C10.RankUnknown"}
@@ -151,7 +166,7 @@ Step ==
                      ELSE IF X.ranks[e.r + 1].why = "exec"
                           THEN E(e.code = T.xrc[e.r + 1], "C10.ExitCode")
                           ELSE E(e.code # 0, "C10.FailureNotReported"))
-               /\ UNCHANGED <<pos, seen, prefailed>>
+               /\ UNCHANGED <<pos, seen, prefailed, reported>>
           [] e.ev = "LaunchExit" ->
                /\ errs' = errs
                     \* everything described ran (per rank and in the launch script)
@@ -167,20 +182,23 @@ Step ==
                                            \cup StreamErrs(e.err_at[i], WantErr, "C10.Stderr", "C10.StderrElsewhere")
                                       ELSE {} : i \in 1 .. C.ranks}
                           ELSE {})
+                    \* td.startup_timeout: rank 0 reported that the task started
+                    \cup (IF X.launched THEN E(X.ctrl \subseteq reported, "C10.StartupNotReported")
+                          ELSE {})
                     \* the task dict names the described files for the later stages
                     \cup E(T.task_out = WantOut, "C10.TaskStdoutFile")
                     \cup E(T.task_err = WantErr, "C10.TaskStderrFile")
-               /\ UNCHANGED <<pos, seen, prefailed>>
+               /\ UNCHANGED <<pos, seen, prefailed, reported>>
           [] OTHER ->
                /\ errs' = errs \cup {"X.UnknownEvent"}
-               /\ UNCHANGED <<pos, seen, prefailed>>
+               /\ UNCHANGED <<pos, seen, prefailed, reported>>
   /\ UNCHANGED tid
 
 Finish ==
   /\ ~fin /\ l > Len(Ev)
   /\ fin' = TRUE
   /\ PrintT(<<"RESULT", T.tid, errs>>)
-  /\ UNCHANGED <<tid, l, pos, seen, prefailed, errs>>
+  /\ UNCHANGED <<tid, l, pos, seen, prefailed, reported, errs>>
 
 Next == Step \/ Finish
 Spec == Init /\ [][Next]_vars
